@@ -216,10 +216,12 @@ class StabilizerCode(metaclass=ABCMeta):
         if self._logicals_x is None:
             logical_ops = self.get_logicals_x()
             k = len(logical_ops)
-            self._logicals_x = np.zeros((k, 2*self.n), dtype='uint8')
+            logicals_x = np.zeros((k, 2*self.n), dtype='uint8')
 
             for i, logical_op in enumerate(logical_ops):
-                self._logicals_x[i] = self.to_bsf(logical_op)
+                logicals_x[i] = self.to_bsf(logical_op)
+
+            self._logicals_x = logicals_x
 
         return self._logicals_x
 
@@ -232,10 +234,12 @@ class StabilizerCode(metaclass=ABCMeta):
         if self._logicals_z is None:
             logical_ops = self.get_logicals_z()
             k = len(logical_ops)
-            self._logicals_z = np.zeros((k, 2*self.n), dtype='uint8')
+            logicals_z = np.zeros((k, 2*self.n), dtype='uint8')
 
             for i, logical_op in enumerate(logical_ops):
-                self._logicals_z[i] = self.to_bsf(logical_op)
+                logicals_z[i] = self.to_bsf(logical_op)
+
+            self._logicals_z = logicals_z
 
         return self._logicals_z
 
@@ -260,7 +264,7 @@ class StabilizerCode(metaclass=ABCMeta):
 
         if bsparse.is_empty(self._stabilizer_matrix):
             sparse_dict: Dict = dict()
-            self._stabilizer_matrix = dok_matrix(
+            stabilizer_matrix = dok_matrix(
                 (self.n_stabilizers, 2*self.n),
                 dtype='uint8'
             )
@@ -285,9 +289,10 @@ class StabilizerCode(metaclass=ABCMeta):
                             sparse_dict[(i_stab, i_qubit)] = 1
 
             for key, value in sparse_dict.items():
-                self._stabilizer_matrix[key[0], key[1]] = value
-            self._stabilizer_matrix = self._stabilizer_matrix.tocsr()
-            self._stabilizer_matrix.data %= 2
+                stabilizer_matrix[key[0], key[1]] = value
+            stabilizer_matrix = stabilizer_matrix.tocsr()
+            stabilizer_matrix.data %= 2
+            self._stabilizer_matrix = stabilizer_matrix
 
         return self._stabilizer_matrix
 
